@@ -5,6 +5,7 @@ shape pairs, real/complex) vs the L2 model in exact (Gaussian) rational arithmet
 Oracle on the implementation: ring identities in exact fractions ((x/y)*y == x, x*y Cauchy
 product computed independently) and the dtype rule (complex in => complex out)."""
 import operator
+import math
 import numpy as np
 from common import *
 from props import c01
@@ -125,6 +126,8 @@ def obj(a):
         return np.complex128(v)
     if sk == 'np.int64':
         return np.int64(v)
+    if sk in ('np.int8', 'np.uint8', 'np.int16'):
+        return getattr(np, sk[3:])(v)
     if sk == 'np.float32':
         return np.float32(v)
     if sk == 'np.float16':
@@ -264,7 +267,7 @@ def gen_pow(rng, tier):
         sk = rng.choice(['int', 'int', 'float', 'np.float64', 'np.int64', 'complex'])
         if sk in ('int', 'np.int64'):
             v = rng.choice([0, 1, 2, 3, 4, -1, -2])
-            if sk == 'int' and v >= 0 and x[0].size:
+            if v >= 0 and x[0].size:
                 # non-negative Python-int exponents are plain products: defined for every base point, also 0 and negative ones
                 flat = x[0].reshape(-1)
                 flat[rng.randrange(flat.size)] = 0.0
@@ -276,8 +279,8 @@ def gen_pow(rng, tier):
             v = rng.choice([0.5, 1.5, -0.5, 2.0, 3.0, 2.5])
         case['r'] = {'k': 'S', 'sk': sk, 'v': v}
     elif form == 'scalar_base':
-        sk = rng.choice(['int', 'float', 'np.float64'])
-        case['r'] = {'k': 'S', 'sk': sk, 'v': rng.choice([2, 3]) if sk == 'int' else rng.choice([0.5, 1.5, 2.5])}
+        sk = rng.choice(['int', 'float', 'np.float64', 'np.int8', 'np.uint8', 'np.int16', 'np.float16', 'np.float32'])
+        case['r'] = {'k': 'S', 'sk': sk, 'v': rng.choice([2, 3]) if sk in ('int', 'np.int8', 'np.uint8', 'np.int16') else rng.choice([0.5, 1.5, 2.5])}
     else:
         y = rand_coeffs(rng, (D, P) + shape, -1, 1)
         case['y'] = y
@@ -307,7 +310,7 @@ def run_pow(ctx, case):
         cplx = sk == 'complex'
         if cplx and not np.iscomplexobj(z):
             return 'dtype-pow-scalar_exp: x**complex returned dtype %s (imaginary part dropped)' % z.dtype
-        if sk == 'int' and rv >= 0:
+        if sk in ('int', 'np.int64') and rv >= 0:
             m = ctx.model.arrs({'op': 'ew1', 'fn': 'pownat', 'x': enc_arr(x), 'leaves': [], 'params': [], 'n': int(rv)})
         else:
             y0 = x[0] ** rv
@@ -316,7 +319,7 @@ def run_pow(ctx, case):
         m = m[0]
     elif form == 'scalar_base':
         # r**x = exp(log(r) * x)  (utpm.py:433-434)
-        lr = float(np.log(obj(case['r'])))
+        lr = math.log(float(obj(case['r'])))         # the logarithm of the base in double precision, whatever its scalar type
         sx = x * lr
         m = ctx.model.arrs({'op': 'ew1', 'fn': 'exp', 'x': enc_arr(sx), 'leaves': [enc_arr(np.exp(sx[0]))], 'params': []})[0]
     else:
@@ -404,6 +407,7 @@ def run(ctx):
         if f:
             ctx.report(case, 'failure', f)
     systematic_pow(ctx)
+    systematic_const_dtypes(ctx)
     for i in range(n):
         case = gen_pow(ctx.rng, ctx.tier) if i % 6 == 5 else gen_case(ctx.rng, ctx.tier)
         ctx.evaluations += 1
@@ -429,6 +433,36 @@ def run(ctx):
             ctx.report(case, 'failure', res)
 
 
+def systematic_const_dtypes(ctx):
+    """every operator x every narrow / unsigned / bool dtype of a constant array x both sides x binary and in-place form"""
+    rng = ctx.rng
+    for opn in ('add', 'sub', 'mul', 'div'):
+        for dt in ('uint8', 'uint16', 'uint64', 'int8', 'int32', 'float32', 'bool'):
+            for side in ('UA', 'AU', 'inplace'):
+                D, P = rng.randint(1, 3), rng.randint(1, 2)
+                x = rand_coeffs(rng, (D, P, 3), -2, 2)
+                x[0] = c01.gen_x0(rng, 'nz', (P, 3), False)
+                if dt == 'bool':
+                    a = np.array([True, False, True]) if opn != 'div' or side != 'UA' and side != 'inplace' else np.ones(3, dtype=bool)
+                elif dt == 'float32':
+                    a = np.array([0.75, -1.5, 3.0], dtype=np.float32)
+                elif dt.startswith('uint'):
+                    a = np.array([1, 2, 3], dtype=dt)
+                else:
+                    a = np.array([-128 if dt == 'int8' else -7, 2, 3], dtype=dt)
+                A = {'k': 'A', 'v': a, 'dt': dt}
+                U_ = {'k': 'U', 'v': x}
+                if side == 'AU':
+                    case = {'op': opn, 'form': 'bin', 'D': D, 'P': P, 'l': A, 'r': U_}
+                else:
+                    case = {'op': opn, 'form': 'inplace' if side == 'inplace' else 'bin', 'D': D, 'P': P, 'l': U_, 'r': A}
+                ctx.evaluations += 1
+                ctx.count('op=' + opn, 'const-dtype=' + dt)
+                res = run_case(ctx, case)
+                if res is not None:
+                    ctx.report(case, 'failure', res)
+
+
 def systematic_pow(ctx):
     """every non-negative Python-int exponent at base points 0, negative and positive, D >= 2"""
     for v in list(range(0, 5)) + [7, 15, 16, 17, 24]:
@@ -437,7 +471,7 @@ def systematic_pow(ctx):
             case = gen_pow(ctx.rng, ctx.tier)
         case['form'] = 'scalar_exp'
         case.pop('y', None)
-        case['r'] = {'k': 'S', 'sk': 'int', 'v': v}
+        case['r'] = {'k': 'S', 'sk': 'int' if (v % 2 == 0 or v > 7) else 'np.int64', 'v': v}      # NumPy integer exponents too
         x = np.array(case['x'])
         flat = x[0].reshape(-1)
         flat[0] = 0.0
